@@ -236,6 +236,8 @@ def val_coq(ir):
     if k == 'list':
         return '(VList %s %s)' % (i, clist(val_coq(x) for x in ir['items']))
     if k == 'tuple':
+        if not ir['items']:
+            i = cnat(0)      # CPython has a single empty tuple: it has no identity of its own (a mutated case may still carry a label)
         return '(VTuple %s %s)' % (i, clist(val_coq(x) for x in ir['items']))
     if k == 'dict':
         return '(VDict %s %s %s)' % (i, cbool(ir['od']), clist('(%s, %s)' % (val_coq(a), val_coq(b)) for a, b in ir['items']))
